@@ -25,6 +25,7 @@ RULE = ("command sequences sent one at a time by a raw peer: (a) model-guided ra
 RULE += ("  " + 'Also: REST arguments of thousands of digits; the random, pair and targeted sequences under non-default server configurations (wait_future_timeout=None, connection limits of 1, all time-outs set).')
 RULE += ("  " + 'Also: a command (PWD, TYPE, CWD, CDUP, MLST, SYST, NOOP) between the 1xx mark and the data connection, modelled sequentially; accounts whose connection limit is held by other sessions.')
 RULE += ("  " + 'Also (round 7): a transfer command refused without a mark leaves its prepared data connection open and the next transfer command uses it (no new PASV / EPSV): the restart offset was for the refused command only (the model lets it lapse with every command but REST).')
+RULE += ("  " + 'Also (round 9): the peer ends the data connection of a transfer itself (FIN or RST after 0..150000 bytes of a 2 MB download, a 2500-entry listing, an upload) and carries on: one completion reply (4xx for the download), silence, PWD, next transfer through the same or a new listener, tree unchanged (monitor data_cut).')
 ASSUMPTIONS = [
     "harness/ftpmodel.py is the specification; where it returns a set of outcomes any member is accepted",
     "the peer re-issues PASV/EPSV before a transfer whenever its previous data connection was not consumed by a "
@@ -399,10 +400,119 @@ async def run_sequence(net, hyg, plan):
         w.cleanup()
 
 
+TREE_CUT = dict(TREE0, **{"/huge.bin": payload_bytes(2000000, 5), "/many": DIR})
+TREE_CUT.update({f"/many/entry-{i:04d}-{'x' * 40}": b"" for i in range(2500)})
+
+
+async def run_datacut(net, hyg, plan):
+    """The peer ends the data connection of a transfer by itself (closes or resets it after some bytes, the usual way a client
+    stops a download) and carries on: the transfer command still gets exactly one completion reply, nothing else arrives, the
+    session goes on (PWD, a new transfer through the same or a new listener), the tree is as it was."""
+    w = W.World(net, tree=TREE_CUT, backend=plan.get("backend", "memory"),
+                users=lambda base: aioftp_users(USERS_A, base), block_size=plan.get("block_size", 8192), **(plan.get("server_kwargs") or {}))
+    await w.start()
+    viol = []
+    mon = {"reply_vs_model": 0, "tree_vs_model": 0, "silence": 0, "alive": 0, "content": 0, "data_cut": 0}
+    transcript = []
+    verb, how, after = plan["verb"], plan["how"], plan["after"]
+    where = f"{verb}, the peer {'resets' if how == 'rst' else 'closes'} its data connection after {after} bytes ({plan.get('pcmd', 'EPSV')}, {plan.get('backend', 'memory')})"
+
+    def bad(sym, msg):
+        viol.append({"key": f"{sym}:data-cut:{verb}:{how}", "msg": f"{where}: {msg}"})
+    try:
+        p = RawPeer(net, 2121)
+        await p.connect()
+        await p.cmd("USER anonymous")
+        await p.cmd("TYPE I")
+        pcmd = plan.get("pcmd", "EPSV")
+        r = await p.cmd(pcmd)
+        port = p.parse_epsv(r) if pcmd == "EPSV" else p.parse_pasv(r)[1]
+        tree_before = w.tree()
+        dr, dw = await p.open_data(port)
+        line = {"RETR": "RETR /huge.bin", "LIST": "LIST /many", "MLSD": "MLSD /many", "STOR": "STOR /up.bin", "APPE": "APPE /top.txt"}[verb]
+        r1 = await p.cmd(line)
+        mon["reply_vs_model"] += 1
+        if r1 in (None, "EOF") or not r1.code.startswith("1"):
+            bad("wrong-reply", f"{line} -> {r1}")
+        else:
+            if verb in ("STOR", "APPE"):
+                dw.write(b"u" * after)
+                await dw.drain()
+                await net.settle()
+            elif after:
+                await p.read_data(dr, wait=10, limit=after)
+            if how == "rst":
+                dw.transport.abort()
+            else:
+                dw.close()
+            mon["data_cut"] += 1
+            r2 = await p.read_reply(wait=30)
+            code = r2.code if r2 not in (None, "EOF") else str(r2)
+            transcript.append([line, how, after, code])
+            if r2 in (None, "EOF"):
+                bad("session-dropped" if r2 == "EOF" else "no-reply",
+                    f"after the mark {r1.code} no completion reply, {'the control connection was closed' if r2 == 'EOF' else 'nothing for 30 s'}")
+            else:
+                if verb == "RETR" and not code.startswith("4"):
+                    # 2 MB, of which the network takes a tenth before the reset is back at the server: it knows
+                    bad("success-reply", f"completion reply {code} although most of the data was never delivered")
+                elif not (code.startswith("4") or code in ("226", "200")):
+                    # (a listing may have gone out completely before the server could notice; an upload ends where the data ends)
+                    bad("wrong-reply", f"completion reply {code}")
+                mon["silence"] += 1
+                quiet, buf = await p.silent()
+                if not quiet:
+                    bad("unsolicited-reply", f"extra bytes after the completion reply {code}: {buf[:80]!r}")
+                mon["alive"] += 1
+                r3 = await p.cmd("PWD")
+                if r3 in (None, "EOF") or r3.code != "257":
+                    bad("session-dropped-after-reply", f"completion reply {code}, then PWD -> {r3}")
+                else:
+                    # the next transfer: through the same listener (every other plan) or a new one
+                    if not plan.get("reuse"):
+                        r = await p.cmd(pcmd)
+                        port = p.parse_epsv(r) if pcmd == "EPSV" else p.parse_pasv(r)[1]
+                    try:
+                        dr2, dw2 = await p.open_data(port)
+                    except OSError as e:
+                        dr2 = None
+                        bad("followup-refused", f"data connection for the next transfer refused: {e!r}")
+                    if dr2 is not None:
+                        r4 = await p.cmd("RETR /a/f1")
+                        got, st = await p.read_data(dr2, wait=10)
+                        dw2.close()
+                        r5 = await p.read_reply()
+                        codes = [x.code if x not in (None, "EOF") else str(x) for x in (r4, r5)]
+                        mon["content"] += 1
+                        if codes != ["150", "226"] or got != TREE_CUT["/a/f1"]:
+                            bad("followup-failed", f"next transfer (listener {'re-used' if plan.get('reuse') else 'new'}): replies {codes}, {len(got)} bytes")
+                mon["tree_vs_model"] += 1
+                t = w.tree()
+                changed = sorted(k for k in set(t) | set(tree_before) if t.get(k) != tree_before.get(k))
+                if verb in ("STOR", "APPE"):
+                    target = "/up.bin" if verb == "STOR" else "/top.txt"
+                    base = b"" if verb == "STOR" else TREE_CUT["/top.txt"]
+                    cur = t.get(target)
+                    if changed not in ([], [target]) or not isinstance(cur, bytes) or not (base + b"u" * after).startswith(cur) or not cur.startswith(base):
+                        bad("tree-differs", f"after the cut upload: changed {changed[:4]}, {target} holds {len(cur) if isinstance(cur, bytes) else cur} bytes")
+                elif changed:
+                    bad("tree-differs", f"a download changed the tree at {changed[:4]}")
+        p.cut("fin")
+        await net.quiesce(1.0)
+        for leak in w.leaks():
+            bad("leak", leak)
+        await w.stop()
+        return {"violations": viol, "monitors": mon, "sig": sig_of([plan, transcript]), "nontrivial": bool(transcript), "transcript": transcript}
+    finally:
+        w.cleanup()
+
+
 def run_case(case):
     plan = case["plan"]
 
     async def main(net, hyg):
+        if plan.get("kind") == "datacut":
+            return await run_datacut(net, hyg, plan)
         return await run_sequence(net, hyg, plan)
     res, info = W.run(main, seed=plan.get("seed", 0), net_kwargs=dict(mss=plan.get("mss", 1460), latency=0.001))
     if res is None:
@@ -505,6 +615,19 @@ def gen_cases(tier, seed):
     for k, seq in enumerate(itertools.product(ALPHABET, repeat=2)):
         cfg = ["wft-none", "limits", "timeouts", "limits-held"][k % 4]
         cases.append({"plan": {"seed": seed, "cfg": cfg, "commands": [list(x) for x in login + list(seq) + [("PWD", "", None, "plain")]]}})
+    # the peer ends the data connection itself in mid-transfer and carries on
+    n = 0
+    for verb in ("RETR", "LIST", "MLSD", "STOR", "APPE"):
+        for how in ("fin", "rst"):
+            if how == "fin" and verb in ("STOR", "APPE"):
+                continue        # (that is how an upload ends normally)
+            for after in ((0, 1000, 70000) if tier == "quick" else (0, 1, 1000, 8192, 20000, 70000, 150000)):
+                for backend in (("memory", "pathio") if tier == "quick" else ("memory", "pathio", "async")):
+                    n += 1
+                    cases.append({"plan": {"kind": "datacut", "verb": verb, "how": how, "after": after, "backend": backend, "seed": seed,
+                                           "pcmd": "PASV" if n % 3 == 0 else "EPSV", "reuse": n % 2 == 0,
+                                           "block_size": [8192, 512, 65536][n % 3],
+                                           "server_kwargs": {"socket_timeout": 20, "idle_timeout": 60} if n % 4 == 1 else None}})
     if tier == "thorough":
         for i in range(300):
             cases.append({"plan": {"seed": seed * 7 + i, "length": 25, "backend": "pathio" if i % 2 else "async", "users": "A"}})
